@@ -229,6 +229,19 @@ def b3_convert(ctx):
                     ctx.finding('B3', 'not-rounded/%s' % tname, "'N to %s' yields %s: N is not rounded to the nearest integer by the conversion" % (tname.lower(), vt[:100]), site=b.loc)
     if n < 4:
         raise AnchorLost('number_type_convert: expected 4 target types, found %d' % n)
+    # the conversion applies to every number: no branch of the function may depend on the magnitude or sign of the operand
+    # ("every non-negative integer converts", including 0)
+    seen_guard = set()
+    for v, inner, conds in result_alternatives(b):
+        for d, vv in conds:
+            for x in walk(d):
+                if x[0] == 'binop' and x[1] in ('Lt', 'Le', 'Gt', 'Ge', 'Eq', 'Ne') and any('get_number(' in render(y) for y in (x[2], x[3])):
+                    t_ = render(x)
+                    if t_ not in seen_guard:
+                        seen_guard.add(t_)
+                        ctx.finding('B3', 'number_type_convert/value-guard', "whether 'N to <base>' converts depends on %s: the statement converts every number (0 included) - a guard on the operand's value leaves some operands in their old base" % t_[:120], site=b.loc)
+    if not seen_guard:
+        ctx.ok('B3', 'no branch of number_type_convert tests the value of the operand', 'gamma', site=b.loc)
     # word table of the code vs configured words: the type operand of the result, evaluated (E6b) for each target word -
     # however the table is spelled (match arms, a const table searched with find, a helper)
     from ..evalint import feasible_alternatives
